@@ -3,7 +3,7 @@
 (* Trace validation for the rule tables: margins (C20) ...  One JSON line  *)
 (* per recorded call of the real code; total verdicts.                     *)
 (***************************************************************************)
-EXTENDS Margins, PandoraInput, Json, IOUtils, TLC, Integers
+EXTENDS Margins, PandoraInput, Multiscale, Json, IOUtils, TLC, Integers
 
 Cases == ndJsonDeserialize(IOEnv.TRACE_FILE)
 
@@ -57,7 +57,19 @@ DatasetVerdict(e) ==
                   ELSE IF badM # {} THEN LET x == CHOOSE z \in badM : TRUE IN <<"mask", x[1], x[2], e.inmask[x[1]][x[2]], IsNd(e, x[1], x[2]), e.out.msk[x[1]][x[2]]>>
                   ELSE <<>>]
 
+\* ---- disparity range for the next pyramid level (C15) -------------------------------------------------------------------------
+RangeVerdict(e) ==
+   LET FR == Len(e.out.omin)  FC == Len(e.out.omin[1])
+       bad == {x \in (1..FR) \X (1..FC) : ~FineOk(e, x[1], x[2], e.out.omin[x[1]][x[2]], e.out.omax[x[1]][x[2]])}
+       shape == FR >= e.rows * e.sf - e.sf + 1 /\ FR <= e.rows * e.sf /\ FC >= e.cols * e.sf - e.sf + 1 /\ FC <= e.cols * e.sf
+   IN [failed |-> (IF bad # {} THEN {"next_level_range"} ELSE {}) \cup (IF ~shape THEN {"next_level_shape"} ELSE {})
+                  \cup (IF ~e.out.frame_ok THEN {"coarse_map_unchanged"} ELSE {}),
+       detail |-> IF bad = {} THEN <<FR, FC>> ELSE LET x == CHOOSE y \in bad : TRUE
+                                                  IN <<x[1], x[2], e.out.omin[x[1]][x[2]], e.out.omax[x[1]][x[2]],
+                                                       {RangeOf(e, p[1], p[2]) : p \in Parents(e, x[1], x[2])}>>]
+
 Verdict(e) == CASE e.step = "margins" -> MarginsVerdict(e)
+                [] e.step = "disparity_range" -> RangeVerdict(e)
                 [] e.step = "dataset" -> DatasetVerdict(e)
                 [] OTHER -> [failed |-> {"unknown_step"}, detail |-> <<>>]
 
